@@ -88,9 +88,14 @@ def record(ctx, algopy, A, prog, x):
     cg.trace_off()
     cg.independentFunctionList = [fx]
     cg.dependentFunctionList = [fy]
+    def kind(v):
+        if isinstance(v, np.ndarray):
+            return 'ndarray'
+        if isinstance(v, (S.Sym, S.SymC, float, int, complex, np.number)):
+            return 'scalar'
+        return type(v).__name__
     ctx.fp('graph', [(f.func.__name__, bool(getattr(f.x, 'owndata', None))) if isinstance(f.x, algopy.UTPM)
-                     else (f.func.__name__, type(f.x).__name__ if not isinstance(f.x, np.ndarray) else 'ndarray')
-                     for f in cg.functionList])
+                     else (f.func.__name__, kind(f.x)) for f in cg.functionList])
     return cg, fx, fy
 
 
